@@ -1,13 +1,155 @@
-import CalVerif.Spec.OdsRange
-import CalVerif.Lemmas.Range
-/-! # C04 — ODS: cells read back at their position; repeat counts expand faithfully -/
+import CalVerif.Lemmas.OdsRange
+/-! # C04 — ODS: cells read back at their position; repeat counts expand faithfully
+
+    Property theorems only (helper lemmas live in `Lemmas/OdsRange.lean`).
+
+    * model: `collect` (= `read_table` + `read_row`: the flat `cells`, the offsets `cols`, `rows_repeats`,
+      with the pending-blank-run logic) and `getRange` (= `get_range`, both passes) of `Model/OdsRange.lean`;
+    * spec: `expand runs r c` — the value the run-length encoded table stores at `(r, c)` — and `IsBBox`,
+      the tight bounding rectangle of the non-default positions (`Spec/OdsRange.lean`).
+
+    Hypotheses of every theorem (`WF`): row repeat counts are ≥ 1 (ODF: `positiveInteger`; with a
+    `number-rows-repeated="0"` the code returns one row too many) and every stored position fits `u32`
+    (the final `as u32` casts truncate otherwise). Column repeat counts are arbitrary (0 included). -/
 namespace OdsRange
 open Range (Rng Inv)
+set_option linter.unusedSectionVars false
+variable {α : Type} [Inhabited α] [DecidableEq α]
+
+/-- well-formed run list: positive row repeats, every non-default position is a `u32` position -/
+def WF (runs : List (RowRun α)) : Prop :=
+  (∀ r ∈ runs, 1 ≤ r.1) ∧ ∀ p q, expand runs p q ≠ default → p < U32 ∧ q < U32
+
+/-! ## `get_range` on the vectors of `read_table` (explicit rows) -/
+
+/-- `get_range` never panics on the vectors `read_table` builds, and its result is `getRangeRows` -/
+theorem getRange_flatten (rows : List (Nat × List α)) :
+    getRange (flatten rows) = .ok (getRangeRows true (rows.map (·.2)) (rows.map (·.1))) := by
+  unfold getRange getRangeG
+  rw [slices_flatten]
+  rfl
+
+/-- **bounds pass + expansion pass, explicit rows**: for rows given cell by cell (any mixture of leading,
+    interior, trailing default cells; first used column anywhere) with positive repeat counts the result is a
+    consistent rectangle, it is the tight bounding box of the non-default cells of the expansion, and it
+    holds the expansion's value at every absolute position -/
+theorem getRange_rows_spec (rows : List (Nat × List α)) (hrep : ∀ x ∈ rows, 1 ≤ x.1)
+    (hfit : ∀ r c, gridF rows r c ≠ default → r < U32 ∧ c < U32) :
+    ∃ R, getRange (flatten rows) = .ok R ∧ Inv R ∧ (∀ p q, R.valAt p q = gridF rows p q) ∧
+      (R.inner.length = 0 ↔ ∀ p q, gridF rows p q = default) ∧
+      (R.inner.length ≠ 0 → IsBBox (gridF rows) R.sr R.sc R.er R.ec) ∧
+      (R.inner.length = 0 → R = Range.empty) := by
+  obtain ⟨h1, h2, h3, h4, h5⟩ := getRangeRows_spec rows hrep hfit
+  exact ⟨_, getRange_flatten rows, h1, h2, h3, h4, h5⟩
+
+/-! ## through `read_row`: cell events with `number-columns-repeated` -/
+
+/-- generic form (any payload `ε`; `pend` = "value and formula are empty", `val` = the component pushed to
+    the vector): `read_row`'s pending-run logic never displaces a value and never materialises a trailing
+    blank run, whatever the repeat counts -/
+theorem ods_range_spec_gen {ε : Type} (pend : ε → Bool) (val : ε → α)
+    (hp : ∀ e, pend e = true → val e = default) (runs : List (Nat × List (ε × Nat))) (hwf : WF (runsOf val runs)) :
+    ∃ R, getRange (flatten (collectG pend val runs)) = .ok R ∧ Inv R ∧
+      (∀ p q, R.valAt p q = expand (runsOf val runs) p q) ∧
+      (R.inner.length = 0 ↔ ∀ p q, expand (runsOf val runs) p q = default) ∧
+      (R.inner.length ≠ 0 → IsBBox (expand (runsOf val runs)) R.sr R.sc R.er R.ec) ∧
+      (R.inner.length = 0 → R = Range.empty) := by
+  have hg : gridF (collectG pend val runs) = expand (runsOf val runs) := by
+    funext r c; exact gridF_collectG pend val hp runs r c
+  have hrep : ∀ x ∈ collectG pend val runs, 1 ≤ x.1 := by
+    intro x hx
+    obtain ⟨r, hr, rfl⟩ := List.mem_map.1 hx
+    exact hwf.1 (r.1, r.2.map fun x => (val x.1, x.2)) (List.mem_map.2 ⟨r, hr, rfl⟩)
+  have := getRange_rows_spec (collectG pend val runs) hrep (by rw [hg]; exact hwf.2)
+  rw [hg] at this
+  exact this
+
+theorem runsOf_id (runs : List (RowRun α)) : runsOf id runs = runs := by
+  unfold runsOf
+  conv => rhs; rw [← List.map_id runs]
+  apply List.map_congr_left
+  intro r _
+  obtain ⟨k, evs⟩ := r
+  simp
+
+/-- **C04, main statement**: for every well-formed run list — leading, interior and trailing empty runs of
+    any length, repeated non-empty rows and cells, first used row/column anywhere — `get_range` applied to what
+    `read_table` collected is the bounding rectangle of the non-empty cells of the semantic expansion and
+    holds at every absolute position the value the content stores there (`abs (getRange (collect runs)) =
+    (bbox (expand runs), valAt (expand runs))`; the empty table gives the empty range) -/
+theorem ods_range_spec (runs : List (RowRun α)) (hwf : WF runs) :
+    ∃ R, getRange (collect runs) = .ok R ∧
+      (∀ p q, R.valAt p q = expand runs p q) ∧
+      (R.inner.length = 0 ↔ ∀ p q, expand runs p q = default) ∧
+      (R.inner.length ≠ 0 → IsBBox (expand runs) R.sr R.sc R.er R.ec) ∧
+      (R.inner.length = 0 → R = Range.empty) := by
+  have h := ods_range_spec_gen (fun v : α => decide (v = default)) id (by intro e he; simpa using he) runs
+    (by rw [runsOf_id]; exact hwf)
+  rw [runsOf_id] at h
+  obtain ⟨R, h0, _, h2, h3, h4, h5⟩ := h
+  exact ⟨R, h0, h2, h3, h4, h5⟩
+
+/-- the result satisfies C05's rectangle invariant (the statement D19 violated, see below) -/
+theorem ods_inv (runs : List (RowRun α)) (hwf : WF runs) :
+    ∃ R, getRange (collect runs) = .ok R ∧ Inv R := by
+  have h := ods_range_spec_gen (fun v : α => decide (v = default)) id (by intro e he; simpa using he) runs
+    (by rw [runsOf_id]; exact hwf)
+  obtain ⟨R, h0, h1, _⟩ := h
+  exact ⟨R, h0, h1⟩
+
+/-- **encoding independence**: two run lists with the same expansion — a run of identical cells or rows
+    written as one repeated element or as explicit copies, blank runs grouped in any way, trailing blank
+    runs of any length present or not — give the same `Range` -/
+theorem ods_encoding_independent (rs₁ rs₂ : List (RowRun α)) (h₁ : WF rs₁) (h₂ : WF rs₂)
+    (he : expand rs₁ = expand rs₂) : getRange (collect rs₁) = getRange (collect rs₂) := by
+  obtain ⟨R1, e1, i1, v1, z1, b1, m1⟩ :=
+    ods_range_spec_gen (fun v : α => decide (v = default)) id (by intro e he; simpa using he) rs₁
+      (by rw [runsOf_id]; exact h₁)
+  obtain ⟨R2, e2, i2, v2, z2, b2, m2⟩ :=
+    ods_range_spec_gen (fun v : α => decide (v = default)) id (by intro e he; simpa using he) rs₂
+      (by rw [runsOf_id]; exact h₂)
+  rw [runsOf_id] at v1 z1 b1 v2 z2 b2
+  have e1' : getRange (collect rs₁) = .ok R1 := e1
+  have e2' : getRange (collect rs₂) = .ok R2 := e2
+  rw [e1', e2']
+  congr 1
+  by_cases hz : R1.inner.length = 0
+  · have hz2 : R2.inner.length = 0 := z2.2 (by rw [← he]; exact z1.1 hz)
+    rw [m1 hz, m2 hz2]
+  · have hz2 : R2.inner.length ≠ 0 := fun h => hz (z1.2 (by rw [he]; exact z2.1 h))
+    have hb := IsBBox.unique (b1 hz) (by rw [he]; exact b2 hz2)
+    exact rng_ext R1 R2 i1 i2 hz hz2 hb (fun p q => by rw [v1, v2, he])
+
+/-! ## cells that carry a value and a formula (`cells` and `formulas` vectors of `read_table`) -/
+
+/-- the values range when cells also carry formulas: a cell is *pending* only if value and formula are both
+    empty, so a formula-only cell is materialised as an empty value — positions and bounds are unaffected -/
+theorem ods_range_spec_values {β : Type} [Inhabited β] [DecidableEq β] (runs : List (RowRunVF α β))
+    (hwf : WF (runsOf (fun e : α × β => e.1) runs)) :
+    ∃ R, getRange (collectV runs) = .ok R ∧ Inv R ∧
+      (∀ p q, R.valAt p q = expand (runsOf (fun e : α × β => e.1) runs) p q) ∧
+      (R.inner.length ≠ 0 → IsBBox (expand (runsOf (fun e : α × β => e.1) runs)) R.sr R.sc R.er R.ec) := by
+  obtain ⟨R, h0, h1, h2, _, h4, _⟩ := ods_range_spec_gen (pendVF (α := α) (β := β)) (fun e => e.1)
+    (by intro e he; simp only [pendVF, Bool.and_eq_true, decide_eq_true_eq] at he; exact he.1) runs hwf
+  exact ⟨R, h0, h1, h2, h4⟩
+
+/-- the formulas range (`worksheet_formula`): bounding box of the non-empty formulas, each at its cell -/
+theorem ods_range_spec_formulas {β : Type} [Inhabited β] [DecidableEq β] (runs : List (RowRunVF α β))
+    (hwf : WF (runsOf (fun e : α × β => e.2) runs)) :
+    ∃ R, getRange (collectF runs) = .ok R ∧ Inv R ∧
+      (∀ p q, R.valAt p q = expand (runsOf (fun e : α × β => e.2) runs) p q) ∧
+      (R.inner.length ≠ 0 → IsBBox (expand (runsOf (fun e : α × β => e.2) runs)) R.sr R.sc R.er R.ec) := by
+  obtain ⟨R, h0, h1, h2, _, h4, _⟩ := ods_range_spec_gen (pendVF (α := α) (β := β)) (fun e => e.2)
+    (by intro e he; simp only [pendVF, Bool.and_eq_true, decide_eq_true_eq] at he; exact he.2) runs hwf
+  exact ⟨R, h0, h1, h2, h4⟩
+
+/-! ## D19 and non-vacuity -/
 
 /-- the D19 witness rows `[_,1,2] / [] / [_,3]` as cell events -/
 def d19rows : List (RowRun Nat) := [(1, [(0, 1), (1, 1), (2, 1)]), (1, []), (1, [(0, 1), (3, 1)])]
 
-/-- D19: before the fix `get_range` returned 7 cells for the 3×2 rectangle of the witness -/
+/-- D19: before the fix (`extend_from_slice(&empty_cells)` for the pending empty rows) `get_range` returned
+    7 cells for the 3×2 rectangle of the witness: the rectangle invariant fails -/
 theorem d19_unfixed_violates_inv :
     ∃ r, getRangeUnfixed (collect d19rows) = .ok r ∧ ¬ Inv r := by
   refine ⟨_, rfl, ?_⟩
@@ -15,5 +157,60 @@ theorem d19_unfixed_violates_inv :
   have := h.len
   revert this
   decide
+
+/-- a sufficient, decidable condition for `WF`: positive row repeats, at most 2^32 rows and columns -/
+theorem wf_of_small (runs : List (RowRun α)) (h1 : ∀ r ∈ runs, 1 ≤ r.1) (h2 : total runs ≤ U32)
+    (h3 : ∀ r ∈ runs, (r.2.map (·.2)).sum ≤ U32) : WF runs := by
+  refine ⟨h1, ?_⟩
+  intro p q h
+  unfold expand at h
+  rw [runAt_eq] at h
+  cases hr : (expR runs)[p]? with
+  | none => rw [hr] at h; exact absurd rfl h
+  | some evs =>
+    rw [hr] at h
+    simp only at h
+    have hp : p < (expR runs).length := by
+      apply Classical.byContradiction; intro hn
+      rw [List.getElem?_eq_none (by omega)] at hr; cases hr
+    rw [expR_length] at hp
+    obtain ⟨x, hx, rfl⟩ := mem_expR runs evs (List.mem_of_getElem? hr)
+    have hq : ∀ (evs : List (α × Nat)) (c : Nat), cellAt evs c ≠ default → c < (evs.map (·.2)).sum := by
+      intro evs
+      induction evs with
+      | nil => intro c hc; exact absurd rfl hc
+      | cons e rest ih =>
+        intro c hc
+        obtain ⟨v, k⟩ := e
+        simp only [cellAt] at hc
+        simp only [List.map_cons, List.sum_cons]
+        by_cases hk : c < k
+        · omega
+        · rw [if_neg hk] at hc; have := ih (c - k) hc; omega
+    have := hq x.2 q h
+    have := h3 x hx
+    exact ⟨by omega, by omega⟩
+
+/-- non-vacuity: the witness rows are well formed, and on them the fixed code returns the 3×2 rectangle
+    `B1:C3` with `3` at its place -/
+example : WF d19rows ∧
+    getRange (collect d19rows) = .ok ⟨0, 1, 2, 2, [1, 2, 0, 0, 3, 0]⟩ ∧
+    IsBBox (expand d19rows) 0 1 2 2 := by
+  have hwf : WF d19rows := wf_of_small d19rows (by decide) (by decide) (by decide)
+  refine ⟨hwf, rfl, ?_⟩
+  obtain ⟨R, h0, _, _, h3, _⟩ := ods_range_spec d19rows hwf
+  have : R = ⟨0, 1, 2, 2, [1, 2, 0, 0, 3, 0]⟩ := by
+    have e : getRange (collect d19rows) = .ok ⟨0, 1, 2, 2, [1, 2, 0, 0, 3, 0]⟩ := rfl
+    rw [e] at h0; injection h0 with h0; exact h0.symm
+  subst this
+  exact h3 (by decide)
+
+/-- non-vacuity of encoding independence: repeated elements vs explicit copies, blank runs regrouped, a huge
+    trailing blank run and 1 048 573 trailing blank rows — the same range -/
+example :
+    getRange (collect ([(2, [(0, 2), (7, 2)]), (3, []), (1, [(0, 1), (0, 2), (5, 1)])] : List (RowRun Nat))) =
+    getRange (collect [(1, [(0, 1), (0, 1), (7, 1), (7, 1), (0, 16380)]), (1, [(0, 2), (7, 2)]), (1, [(0, 5)]),
+      (2, []), (1, [(0, 3), (5, 1), (0, 1)]), (1048569, [(0, 16384)])]) := by
+  rfl
 
 end OdsRange
